@@ -182,16 +182,18 @@ def _run_main(res, ctx):
                 res.violation("the literal is not quoted in the B105 message", {"program": f"password = {pylit(lit)}", "texts": texts})
         # configured temp directories
         import yaml
-        cfgfile = scratch.fresh("c.yaml", yaml.safe_dump({"hardcoded_tmp_directory": {"tmp_dirs": ["/scratch", "/mnt/t"]}}).encode())
-        srcs = [b"a = '/scratch/x'\n", b"a = '/tmp/x'\n", b"a = '/mnt/t'\n", b"a = '/mnt/tx'\n", b"a = '/mnt'\n"]
-        exps = [True, False, True, True, False]
+        # (directories are matched as written: an upper-case letter in a configured directory is part of it — seeded change C16-m14 lower-cased the literal only)
+        cfgfile = scratch.fresh("c.yaml", yaml.safe_dump({"hardcoded_tmp_directory": {"tmp_dirs": ["/scratch", "/mnt/t", "/Volumes/Scratch", "C:\\Temp"]}}).encode())
+        srcs = [b"a = '/scratch/x'\n", b"a = '/tmp/x'\n", b"a = '/mnt/t'\n", b"a = '/mnt/tx'\n", b"a = '/mnt'\n", b"a = '/Volumes/Scratch/out.bin'\n", b"a = '/volumes/scratch/x'\n",
+                b"a = 'C:\\\\Temp\\\\f'\n", b"a = '/SCRATCH/x'\n"]
+        exps = [True, False, True, True, False, True, False, True, False]
         real2 = C.batch_real_scan(scratch, srcs, config_file=cfgfile)
-        model2 = d.ask_many([C.scan_request(s, plugin_cfg={"hardcoded_tmp_directory": {"tmp_dirs": ["/scratch", "/mnt/t"]}}) for s in srcs]) if d is not None else None
+        model2 = d.ask_many([C.scan_request(s, plugin_cfg={"hardcoded_tmp_directory": {"tmp_dirs": ["/scratch", "/mnt/t", "/Volumes/Scratch", "C:\\Temp"]}}) for s in srcs]) if d is not None else None
         for i, s in enumerate(srcs):
             got = any(f[0] == "B108" for f in real2[i]["findings"])
             res.case(("cfg-tmp", s), True)
             if got != exps[i]:
-                res.violation("B108 does not follow the configured temp directories", {"program": s.decode(), "config": ["/scratch", "/mnt/t"], "reported": got})
+                res.violation("B108 does not follow the configured temp directories", {"program": s.decode(), "config": ["/scratch", "/mnt/t", "/Volumes/Scratch", "C:\\Temp"], "reported": got})
             if model2 is not None and "error" not in model2[i]:
                 diff = C.compare_scan(real2[i], model2[i], C.blacklist_ids())
                 if diff:
